@@ -14,6 +14,23 @@ TRUSTED = ["rounded regime: demand probabilities (SciPy pmf/cdf) and the one-per
 THEOREM = 'Props/C12.list (bellman, eval_reproduces_opt, K_zero_base_stock, reorderPos_eq, solve_shape)'
 
 
+def fresh_source(ds):
+	"""A new DemandSource with the CURRENT attribute values of `ds` (lists copied): what the harness derives the documented recursion from,
+	so that nothing an object may have remembered from earlier calls enters the reference."""
+	from stockpyl.demand_source import DemandSource
+	if ds is None:
+		return None
+	kw = {}
+	for a in ('type', 'mean', 'standard_deviation', 'lo', 'hi', 'n', 'p', 'demand_list', 'probabilities', 'round_to_int'):
+		try:
+			v = getattr(ds, '_' + a, None) if hasattr(ds, '_' + a) else getattr(ds, a, None)
+		except Exception:
+			v = None
+		if v is not None:
+			kw[a] = list(v) if isinstance(v, (list, tuple)) else v
+	return DemandSource(**kw)
+
+
 def one_period_cost(ds, h, p, y, mean, sd):
 	from scipy.stats import norm
 	if ds is None or ds.type == 'N':
@@ -95,6 +112,10 @@ def corpus_inputs(name):
 		T = 4; dsl = [None] * T
 		hl, pl, cl, Kl, gl = [1] * T, [10] * T, [1] * T, [0, 5, 20, 50], [1.0] * T
 		kw = dict(demand_mean=8, demand_sd=2); kind = 'normal'
+	elif name == 'source-edited-in-place':
+		T = 3; dsl = [DemandSource(type='CD', demand_list=[4, 8, 12, 16], probabilities=[0.1, 0.2, 0.3, 0.4]) for _ in range(T)]
+		hl, pl, cl, Kl, gl = [1, 2, 1], [10, 5, 10], [1, 0, 2], [12] * T, [1.0] * T
+		kw = dict(demand_source=list(dsl)); kind = 'CD'
 	elif name == 'forward-buying':
 		# purchase cost jumps after period 1 and holding is cheap: the optimal first order-up-to level lies far above the initial
 		# truncation of the state space, so the code must enlarge its grid and restart
@@ -118,6 +139,16 @@ def run_case(rep, drv, rng, th, corpus=None):
 	from stockpyl.finite_horizon import finite_horizon_dp
 	from stockpyl.demand_source import DemandSource
 	args, desc, dsl = corpus_inputs(corpus) if corpus else case_inputs(rng, th)
+	if corpus == 'source-edited-in-place':
+		# object life cycle: the same DemandSource objects were used for an earlier solve, then their probability lists were edited in place
+		with warnings.catch_warnings():
+			warnings.simplefilter('ignore')
+			finite_horizon_dp(**args)
+		for d_ in dsl:
+			d_.probabilities[0], d_.probabilities[-1] = d_.probabilities[-1], d_.probabilities[0]
+		desc['mean'] = [float(fresh_source(d_).demand_distribution.mean()) for d_ in dsl]
+		desc['sd'] = [float(fresh_source(d_).demand_distribution.std()) for d_ in dsl]
+	dsl = [fresh_source(d_) for d_ in dsl]          # reference side: fresh objects with the current attribute values
 	T = desc['T']
 	rep.case('finite_horizon_dp', desc, nontrivial=True)
 	rep.count('fh:T=%d' % T); rep.count('fh:demand=' + desc['kind']); rep.count('fh:K=0' if all(k == 0 for k in desc['K']) else 'fh:K>0')
@@ -246,7 +277,7 @@ def run(rep, drv):
 				'custom-discrete sources; every cell of cost_matrix vs the documented recursion (exact model), oul by objective value, (s,S) extraction, evaluation mode, K=0; '
 				'myopic bounds. non-trivial = all')
 	rng = random.Random(rep.seed + 12)
-	for name in ('mixed-equal-moments', 'rising-fixed-costs', 'forward-buying', 'varying-everything'):
+	for name in ('mixed-equal-moments', 'rising-fixed-costs', 'forward-buying', 'source-edited-in-place', 'varying-everything'):
 		run_case(rep, drv, rng, th, corpus=name)
 	for k in range(300 if th else 34):
 		run_case(rep, drv, rng, th)
